@@ -84,21 +84,37 @@ func coResume(L *LState) int {
 	}
 	th.Parent = L
 	L.G.CurrentThread = th
-	if !th.isStarted() {
-		cf := th.stack.Last()
-		th.currentFrame = cf
-		th.SetTop(0)
-		nargs := L.GetTop() - 1
-		L.XMoveTo(th, nargs)
-		cf.NArgs = nargs
-		th.initCallFrame(cf)
-		th.Panic = panicWithoutTraceback
-	} else {
-		nargs := L.GetTop() - 1
-		base := th.reg.Top()
-		L.XMoveTo(th, nargs)
-		th.adjustYieldResults(base)
-	}
+	func() {
+		started, thtop := th.isStarted(), th.reg.Top()
+		defer func() {
+			if rcv := recover(); rcv != nil {
+				// the arguments did not fit into the coroutine's registry: it was not
+				// resumed, so it must not stay registered as the running thread
+				if !started {
+					th.currentFrame = nil
+				}
+				th.reg.SetTop(thtop)
+				th.Parent = nil
+				L.G.CurrentThread = L
+				panic(rcv)
+			}
+		}()
+		if !started {
+			cf := th.stack.Last()
+			th.currentFrame = cf
+			th.SetTop(0)
+			nargs := L.GetTop() - 1
+			L.XMoveTo(th, nargs)
+			cf.NArgs = nargs
+			th.initCallFrame(cf)
+			th.Panic = panicWithoutTraceback
+		} else {
+			nargs := L.GetTop() - 1
+			base := th.reg.Top()
+			L.XMoveTo(th, nargs)
+			th.adjustYieldResults(base)
+		}
+	}()
 	top := L.GetTop()
 	threadRun(th)
 	return L.GetTop() - top
